@@ -55,7 +55,8 @@ def case_of(ev, events_index):
 
 def sig_c07_servehttp_route_off(ev, mis):
     o = ev.get("obs", {})
-    return (mis["clause"] == "C07.enabled" and o.get("entry") == "S" and o.get("cEnc") and o.get("rEnc") == "off"
+    # ("NET" is ServeHTTP behind a real net/http server)
+    return (mis["clause"] == "C07.enabled" and o.get("entry") in ("S", "NET") and o.get("cEnc") and o.get("rEnc") == "off"
             and o.get("routed"))
 
 
